@@ -66,11 +66,13 @@ NSHARDS = 48
 ROWS, COLS = 2, 3
 
 AXES = {
-    "photon": ["none", "2d", "3d", "3dx"],       # 3dx: the cube carries non-dimension coordinates (scalar + per wavelength)
+    # 3dx: the cube carries non-dimension coordinates (scalar + per wavelength); 3dd: its wavelengths are not ascending
+    "photon": ["none", "2d", "3d", "3dx", "3dd"],
     "pixel": ["none", "set"],
     "signal": ["none", "set"],
     "image": ["none", "u8", "u16", "u32", "u64"],
-    "charge": ["zero", "array", "clusters"],
+    # clusters-df: the clusters were handed over as a DataFrame whose columns are in another (alphabetical) order
+    "charge": ["zero", "array", "clusters", "clusters-df"],
     "scene": ["none", "one"],
     "data": ["empty", "one", "nested", "groups"],
 }
@@ -187,9 +189,9 @@ def fill_containers(det, combo, salt=0.0):
     ph = combo.get("photon", "none")
     if ph == "2d":
         det.photon.array = v * 1.5
-    elif ph in ("3d", "3dx"):
+    elif ph in ("3d", "3dx", "3dd"):
         cube = np.stack([v * 1.5, v * 1.5 + 100.0, v * 1.5 + 200.0])
-        coords = {"wavelength": [500.0, 600.0, 700.0]}
+        coords = {"wavelength": [500.0, 600.0, 700.0] if ph != "3dd" else [700.0, 500.0, 600.0]}
         if ph == "3dx":
             coords.update(band=("wavelength", ["g", "r", "i"]), exposure_id=7 + _seed() % 5)
         det.photon.array_3d = xr.DataArray(cube, dims=["wavelength", "y", "x"], coords=coords)
@@ -219,6 +221,21 @@ def fill_containers(det, combo, salt=0.0):
             init_hor_velocity=np.array([0.25, 0.0, 0.0]),
             init_z_velocity=np.array([0.0, 0.0, 0.75]),
         )
+    elif ch == "clusters-df":
+        from pyxel.data_structure import Charge
+
+        df = Charge.create_charges(
+            particle_type="e",
+            particles_per_cluster=np.array([3.0, 4.0]) + salt + _seed() % 5,
+            init_energy=np.array([0.5, 1.5]),
+            init_ver_position=np.array([1.0, 3.0]),
+            init_hor_position=np.array([0.125, 0.375]),
+            init_z_position=np.array([0.0, 1.0]),
+            init_ver_velocity=np.array([0.0, 0.5]),
+            init_hor_velocity=np.array([0.25, 0.0]),
+            init_z_velocity=np.array([0.0, 0.0]),
+        )
+        det.charge.add_charge_dataframe(df[sorted(df.columns)])
     if combo.get("phase", "none") == "set":
         det.phase.array = v * 0.5 + 7.0
     if combo.get("_alias"):
